@@ -752,6 +752,28 @@ theorem clientStream_ok (n : Bytes) (kids : List Node) (hg : (Node.dir n kids).G
 
 -- ---------------------------------------------------------------- helpers of the property theorems
 
+theorem preorder_head (t : Node) (p : List Bytes) :
+    ∃ rest, t.preorder p = ⟨p, t.name, match t with | .file f => some f | .dir _ _ => none⟩ :: rest := by
+  cases t with
+  | file f => exact ⟨[], by rw [Node.preorder]; rfl⟩
+  | dir n kids => exact ⟨_, by rw [Node.preorder]; rfl⟩
+
+theorem walk_head' (t : Node) (p : List Bytes) :
+    ∃ rest, t.walk p = ⟨p, t.name, match t with | .file f => some f | .dir _ _ => none⟩ :: rest := by
+  cases t with
+  | file f => exact ⟨[], by rw [Node.walk]; rfl⟩
+  | dir n kids => exact ⟨_, by rw [Node.walk]; rfl⟩
+
+/-- Without the requested folder itself the walk is still a permutation of the plain traversal. -/
+theorem walk_tail_perm_preorder (t : Node) (p : List Bytes) : ((t.walk p).drop 1).Perm ((t.preorder p).drop 1) := by
+  obtain ⟨r1, h1⟩ := walk_head' t p
+  obtain ⟨r2, h2⟩ := preorder_head t p
+  have := walk_perm_preorder t p
+  rw [h1, h2] at this
+  rw [h1, h2]
+  simpa using this.cons_inv
+
+
 /-- The items of a folder with a visible name are the visible entries of the walk minus the folder itself. -/
 theorem items_length (t : Node) (hroot : dotName t.name = false) :
     ((t.walk []).filter Entry.visible).length = t.items.length + 1 := by
